@@ -18,7 +18,9 @@ RULE = ('random sequences of assignments (plain and augmented) to position/'
         'to the assigned value (exact, Fraction), nothing else notified or '
         'changed; constructor values stored like assigned ones; defaults not '
         'shared. Non-trivial = a 2D rotation outside [0,360) reaching >=1 '
-        'listener, or >=2 transforms sharing a listener that is notified.')
+        'listener, or >=2 transforms sharing a listener that is notified.'
+        ' Rounds 9-13 added: listeners that evaluate false, that raise once,'
+        ' that unsubscribe themselves while notified.')
 ANCHORS = [
     'desper/logic/spatial.py::Transform2D.__init__',
     'desper/logic/spatial.py::Transform2D.position',
